@@ -210,7 +210,8 @@ class USBInTransferManager(Elaboratable):
             m.d.usb += write_fill_count.eq(write_fill_count + 1)
 
         # If the stream ends while we're adding data to the buffer, mark this as an ended stream.
-        with m.If(in_stream.last & buffer_write.en):
+        # (Data that arrives while we're discarding is dropped, so it can't end a stream, either.)
+        with m.If(in_stream.last & buffer_write.en & ~self.discard):
             m.d.usb += write_stream_ended.eq(1)
 
         # A packet is completing when:
